@@ -374,6 +374,8 @@ def gen_cubic(rng: random.Random, tier: str) -> dict:
         lo, hi = float(xa.min()), float(xa.max())
         kw["knots"] = sorted({round(rng.uniform(lo, hi), 6) for _ in range(rng.randint(1 if not cyclic else 2, 4))})
         kw["knots"] = [q for q in kw["knots"] if lo < q < hi] or [float((lo + hi) / 2)]
+        if rng.random() < 0.35:  # (a knot list is a set of positions: the order it is written in means nothing)
+            rng.shuffle(kw["knots"])
     if rng.random() < 0.3:
         qlo, qhi = rng.choice([(0.05, 0.95), (0.05, 0.95), (0.2, 0.8), (0.0, 0.7)])
         lb, ub = float(np.quantile(xa, qlo)), float(np.quantile(xa, qhi))
